@@ -891,10 +891,7 @@ func (c *client) maybeOverrideUnsupportedWriteConsistency(isSelect bool, raw *fr
 					zap.Stringer("unsupported", m.Consistency),
 					zap.Stringer("override", overrideConsistency))
 				m.Consistency = overrideConsistency
-				return &frame.Frame{
-					Header: raw.Header,
-					Body:   body,
-				}
+				return c.encodeOverriddenFrame(raw, body)
 			} else {
 				c.proxy.logger.Debug("no override required for execute write consistency",
 					zap.Stringer("request", m),
@@ -907,10 +904,7 @@ func (c *client) maybeOverrideUnsupportedWriteConsistency(isSelect bool, raw *fr
 					zap.Stringer("unsupported", m.Consistency),
 					zap.Stringer("override", overrideConsistency))
 				m.Consistency = overrideConsistency
-				return &frame.Frame{
-					Header: raw.Header,
-					Body:   body,
-				}
+				return c.encodeOverriddenFrame(raw, body)
 			} else {
 				c.proxy.logger.Debug("no override required for query write consistency",
 					zap.Stringer("request", m),
@@ -923,10 +917,7 @@ func (c *client) maybeOverrideUnsupportedWriteConsistency(isSelect bool, raw *fr
 					zap.Stringer("unsupported", m.Consistency),
 					zap.Stringer("override", overrideConsistency))
 				m.Consistency = overrideConsistency
-				return &frame.Frame{
-					Header: raw.Header,
-					Body:   body,
-				}
+				return c.encodeOverriddenFrame(raw, body)
 			} else {
 				c.proxy.logger.Debug("no override required for batch write consistency",
 					zap.Stringer("request", m),
@@ -936,6 +927,23 @@ func (c *client) maybeOverrideUnsupportedWriteConsistency(isSelect bool, raw *fr
 	}
 
 	return raw
+}
+
+// encodeOverriddenFrame encodes a modified request body into a raw frame so that the header's body length is derived
+// from the bytes actually written (the frame encoder counts a tracing id for requests that it never writes).
+func (c *client) encodeOverriddenFrame(raw *frame.RawFrame, body *frame.Body) interface{} {
+	var buf bytes.Buffer
+	if err := c.codec.EncodeBody(raw.Header, body, &buf); err != nil {
+		c.proxy.logger.Error("unable to encode request with overridden consistency", zap.Error(err))
+		return &frame.Frame{
+			Header: raw.Header,
+			Body:   body,
+		}
+	}
+	return &frame.RawFrame{
+		Header: raw.Header,
+		Body:   buf.Bytes(),
+	}
 }
 
 func (c *client) isUnsupportedWriteConsistency(consistency primitive.ConsistencyLevel) bool {
